@@ -120,8 +120,8 @@ def rerun_plain(ctx):
 def check_C03(ctx):
     ctx.assumptions += ['gated interleavings are explored at hook granularity; a call counts as waiting if it has not returned after 250 ms',
                         'crash form: see C02 (process death at hook sites, torn tail only for the write in flight)']
-    tlc_mc(ctx, 'KevoTxn', 'MC_Txn.cfg', timeout=250)
-    tlc_mc(ctx, 'MC_Store', 'MC_Store_crash.cfg', timeout=280)
+    tlc_mc(ctx, 'KevoTxn', 'MC_Txn.cfg', timeout=900)
+    tlc_mc(ctx, 'MC_Store', 'MC_Store_crash.cfg', timeout=900)
     # (1) reader form: committer parked at every step of its commit
     gj = gated_jobs()
     gruns = run_jobs(ctx, gj)
@@ -142,10 +142,10 @@ def check_C03(ctx):
     crash.replay_witnesses(ctx, 'C03')
     progs = [b for b in crash.programs(ctx, 30 if ctx.quick() else 200)
              if sum(1 for s in b if s['a'] == 'commit' and len(s['op']) >= 2) >= 2]
-    progs = progs[:(5 if ctx.quick() else 40)]
+    progs = progs[:(8 if ctx.quick() else 40)]
     if not progs:
         raise Infra('no batch-heavy program generated')
-    classes = [crash.CRASH_CLASSES[0], crash.CRASH_CLASSES[3], crash.CRASH_CLASSES[2]]
+    classes = [crash.CRASH_CLASSES[4], crash.CRASH_CLASSES[0], crash.CRASH_CLASSES[3], crash.CRASH_CLASSES[2]]
     crash.enumerate_crashes(ctx, 'C03', progs, classes, cap=5 if ctx.quick() else 10)
     write_evidence(ctx, 'model_checking',
                    'KevoTxn (CommitIsOneStep, RollbackLeavesNoTrace) and KevoStore=>KevoDurable (a batch is one log element) model-checked; '
@@ -161,8 +161,8 @@ def check_C04(ctx):
     ctx.assumptions += ['direct (non-transactional) writes are not part of the histories (excluded by the property)',
                         'the pending-writer rule of the RWMutex is not demanded when validating (begin requests are logged before the Lock call)',
                         'schedules are sampled (seeded free-running clients with yield perturbation), each history is decided by TLC']
-    tlc_mc(ctx, 'KevoTxn', 'MC_Txn.cfg', timeout=250)
-    tlc_mc(ctx, 'KevoTxn', 'MC_TxnLive.cfg', timeout=250)
+    tlc_mc(ctx, 'KevoTxn', 'MC_Txn.cfg', timeout=900)
+    tlc_mc(ctx, 'KevoTxn', 'MC_TxnLive.cfg', timeout=900)
     n = 36 if ctx.quick() else 300
     runs, jobs = free_runs(ctx, n, [3, 4, 6], 6 if ctx.quick() else 10)
     ctx.samples = [runs[0][:40]]
@@ -182,8 +182,8 @@ def check_C17(ctx):
                         'the lifetime limit is exercised only in the thorough tier (it is 60 s for read-write transactions)',
                         'gRPC-level variants (over-long key in TxGet, unknown handles) are covered by the service check C19',
                         'liveness is model-checked; on the implementation it is the finite PROBE: a fresh read-write transaction is granted within 5 s']
-    tlc_mc(ctx, 'KevoTxn', 'MC_Txn.cfg', timeout=250)
-    tlc_mc(ctx, 'KevoTxn', 'MC_TxnLive.cfg', timeout=250)
+    tlc_mc(ctx, 'KevoTxn', 'MC_Txn.cfg', timeout=900)
+    tlc_mc(ctx, 'KevoTxn', 'MC_TxnLive.cfg', timeout=900)
     # (1) registry scenarios; the begin time-out path is a coin flip per occurrence on defective code: several instances in parallel
     scen = ['idle', 'conn', 'shutdown'] + ['timeout-rw'] * 4 + ['timeout-ro'] * 4
     if not ctx.quick():
